@@ -189,6 +189,45 @@ def c02(seed, tier, broken):
         if not abs(gc2 - t2) <= 1e-9 * (1 + abs(t2)):
             found.append(dict(match="graph-chi2-stale", kind="graph_chi2_after_move", impl=gc2, spec=t2, moved_vertex=v.id, desc=desc))
             return dict(found=found, evaluations=ev)
+        # ... also when the estimate is edited IN PLACE (same pose object: `v.pose[:2] = ...`, `v.pose[2] = a`, `pose.normalize()`):
+        # every edge error / chi2 is compared with the independent model at the current values
+        for vv in rng.sample(list(g._vertices), min(2, len(g._vertices))):
+            arr = vv.pose
+            kind = type(arr).__name__
+            if kind == "PoseSE3":
+                if rng.random() < 0.5:
+                    arr[:3] = np.asarray(arr[:3]) + np.array([rng.gauss(0, 0.7) for _ in range(3)])
+                else:
+                    q = np.array([rng.gauss(0, 1) for _ in range(4)])
+                    arr[3:] = q / np.linalg.norm(q)
+            elif kind == "PoseSE2":
+                if rng.random() < 0.5:
+                    arr[:2] = np.asarray(arr[:2]) + np.array([rng.gauss(0, 0.7) for _ in range(2)])
+                else:
+                    arr[2] = rng.uniform(-3.1, 3.1)
+            else:
+                arr[:] = np.asarray(arr) + np.array([rng.gauss(0, 0.7) for _ in range(len(arr))])
+        for ei, e in enumerate(g._edges):
+            spec = S.edge_error(e)
+            if spec is None:
+                continue
+            err = np.asarray(e.calc_error(), dtype=np.float64)
+            ev += 1
+            d = err - spec
+            if type(e).__name__ == "EdgeOdometry" and len(err) == 3 and type(e.vertices[0].pose).__name__ == "PoseSE2":
+                d[2] = math.remainder(d[2], 2 * math.pi)
+            scale = 1 + float(np.max(np.abs(spec))) + max(float(np.max(np.abs(np.asarray(v.pose)))) for v in e.vertices) ** 2
+            c, cs = float(e.calc_chi2()), S.edge_chi2(e, err)  # chi2 of the value calc_error() returns NOW
+            if not float(np.max(np.abs(d))) <= 1e-9 * scale or not abs(c - cs) <= 1e-9 * (1 + abs(cs)):
+                found.append(dict(match="edge-error-stale-after-in-place-edit", kind="edge_error_in_place", edge_index=ei, impl=err.tolist(), spec=spec.tolist(), impl_chi2=c, spec_chi2=cs,
+                                  poses_now=[np.asarray(v.pose).tolist() for v in e.vertices], desc=desc))
+                return dict(found=found, evaluations=ev)
+        t2 = sum(S.edge_chi2(e) for e in g._edges)
+        gc3 = float(g.calc_chi2())
+        ev += 1
+        if not abs(gc3 - t2) <= 1e-9 * (1 + abs(t2)):
+            found.append(dict(match="graph-chi2-stale", kind="graph_chi2_after_in_place_edit", impl=gc3, spec=t2, desc=desc))
+            return dict(found=found, evaluations=ev)
         # fixed flags are an optimiser concept: chi2 is the sum over *all* edges whatever is fixed (also edges between two
         # fixed vertices)
         for vv in g._vertices:
